@@ -43,8 +43,8 @@ Proof.
     try (inversion H; subst; now apply sname_eqb_eq);
     try (apply snames_eqb_eq in H; now subst);
     try (inversion H; subst; now apply snames_eqb_eq).
-  - apply andb_prop in H. destruct H as [H1 H2]. apply snames_eqb_eq in H1. apply Nat.eqb_eq in H2. now subst.
-  - inversion H; subst. apply andb_true_intro. split; [now apply snames_eqb_eq|apply Nat.eqb_refl].
+  - apply andb_prop in H. destruct H as [H1 H2]. apply sname_eqb_eq in H1. apply Nat.eqb_eq in H2. now subst.
+  - inversion H; subst. apply andb_true_intro. split; [now apply sname_eqb_eq|apply Nat.eqb_refl].
 Qed.
 
 Lemma name_eqb_refl a : name_eqb a a = true.
